@@ -224,6 +224,50 @@ func (c *Ctx) pausedHelper(paused *types.Func) {
 		return true
 	})
 	c.Floor("C11.1-paused-true-returns", n, 1)
+	// and the other way round: false is returned only when the annotation map is nil or has no such key
+	// (anything else would let a paused set be reconciled)
+	var mapObj, okObj types.Object
+	ast.Inspect(fi.Decl.Body, func(y ast.Node) bool {
+		if as, ok := y.(*ast.AssignStmt); ok && len(as.Rhs) == 1 && len(as.Lhs) == 2 {
+			if ix, ok := ast.Unparen(as.Rhs[0]).(*ast.IndexExpr); ok {
+				if tv, ok := info.Types[ix.Index]; ok && tv.Value != nil && tv.Value.ExactString() == keyConst.Val().ExactString() {
+					if mid, ok := ast.Unparen(ix.X).(*ast.Ident); ok {
+						mapObj = info.ObjectOf(mid)
+					}
+					if oid, ok := as.Lhs[1].(*ast.Ident); ok {
+						okObj = info.ObjectOf(oid)
+					}
+				}
+			}
+		}
+		return true
+	})
+	fn.KeepDead = true
+	an := fn.Analyze(nil)
+	fn.KeepDead = false
+	nf := 0
+	ast.Inspect(fi.Decl.Body, func(x ast.Node) bool {
+		ret, ok := x.(*ast.ReturnStmt)
+		if !ok || len(ret.Results) != 1 || fn.Formula(ret.Results[0]) != gf.False {
+			return true
+		}
+		nf++
+		name := "GetPausedReconcile: return false at " + c.P.Pos(ret.Pos())
+		var alts []*gf.Formula
+		if mapObj != nil {
+			alts = append(alts, gf.FNil(gf.Var(mapObj)))
+		}
+		if okObj != nil {
+			alts = append(alts, gf.Not(gf.FBool(gf.Var(okObj))))
+		}
+		if len(alts) == 0 {
+			c.Bad("C11.1-annotation-true-means-paused", name, ret.Pos(), "the annotation lookup was not found")
+			return true
+		}
+		c.Implies(an.StateBefore(ret), gf.Or(alts...), "C11.1-annotation-true-means-paused", name, ret.Pos())
+		return true
+	})
+	c.Floor("C11.1-paused-false-returns", nf, 1)
 }
 
 // assignedFrom returns the single right-hand side assigned to identifier e in fi (nil if none or several).
